@@ -199,6 +199,8 @@ CRITICAL = [
     {"p.mac": "\tnop\n\t.ascii /never closed\n"},
     {"p.mac": "\t.word (1\n"},
     {"p.mac": "\tmov , r1\n"},
+    {"p.mac": "\t.repeat 2, { nop }\n"},
+    {"p.mac": "\t.word 1 { nop }\n\tmov #1 { nop }\n"},
     {"p.mac": "\t.include \"lib/once.mac\"\n", "lib/once.mac": "\t.once\n\t)\n"},
 ]
 RAISING = [
